@@ -62,8 +62,12 @@ class ToolLimit(Exception):
 def build_and_verify(unit, scratch, rlimit=None):
     """-> dict with unit text, metas, verus result, classified failures, vacuity info."""
     cfg = load_json(os.path.join(VERIF, 'units', 'units.json'))[unit]
-    with open(os.path.join(VERIF, 'units', cfg['template'])) as f:
-        tpl = f.read()
+    if cfg.get('generator'):
+        from . import gen_units
+        tpl = getattr(gen_units, cfg['generator'])()
+    else:
+        with open(os.path.join(VERIF, 'units', cfg['template'])) as f:
+            tpl = f.read()
     # includes: //@@include file
     def inc(m):
         with open(os.path.join(VERIF, 'units', m.group(1))) as f:
